@@ -136,8 +136,15 @@ impl<T: Harvest, const N: usize> Harvest for [T; N] {
         }
     }
 }
+/// A container whose length is absurd (a `Vec` of zero-sized items built with a wrong `set_len`): one marker entry
+/// instead of walking it.
+pub const OVERSIZE_ID: u32 = u32::MAX - 2;
 impl<T: Harvest> Harvest for Vec<T> {
     fn harvest(&self, out: &mut Vec<(u32, u32)>) {
+        if self.len() > 1_000_000 {
+            out.push((OVERSIZE_ID, 0));
+            return;
+        }
         for t in self {
             t.harvest(out);
         }
@@ -220,6 +227,11 @@ pub fn harvest_out<T: Harvest>(v: T, base: Res) -> Out {
     with(|w| {
         for &(id, canary) in &ids {
             if id == UNIT_ID {
+                continue;
+            }
+            if id == OVERSIZE_ID {
+                bogus = true;
+                w.flag("c02.val_bogus", || "the combinator returned a container with more than a million elements".to_string());
                 continue;
             }
             if !w.val_returned(id, canary) {
